@@ -19,6 +19,9 @@ AltF == [c \in {"u", "q"} |-> IF c = "u" THEN {In("K1", 1, "weak"), In("K2", NoI
 (* G: a queue controller with TWO primary inputs (two kinds), started after resources of both kinds exist: the start-up listing *)
 (* has to cover every primary input                                                                                          *)
 CfgG == [c \in {"q"} |-> C("q", {In("K1", NoId, "qPrimary"), In("K2", NoId, "qPrimary")}, TRUE)]
+(* H: a queue controller with two BY-ID inputs of one kind that differ in their input kind (mapped / mapped-destroy-ready): *)
+(* what an event of that kind means to the controller depends on the id                                                     *)
+CfgH == [c \in {"q"} |-> C("q", {In("K1", NoId, "qPrimary"), In("K2", 1, "qMapped"), In("K2", 2, "qMappedDestroyReady")}, FALSE)]
 NoAlt2(S) == [c \in S |-> {}]
 AltNoneWD == NoAlt2({"w", "d"})
 AltNoneMQ == NoAlt2({"m", "q"})
